@@ -405,6 +405,8 @@ class DeviceBench:
                 info["downs"] += 1
                 log({"e": "down"})
                 link_lost()
+                if st.pop("reset_nums", False):
+                    st.update(p_seq=0, exp=0)
                 words[:] = [x for x in words if isinstance(x[2], tuple) and x[2][0] == "ts"]
             # ---- device outputs: transmit stream
             ei = ctx.get(phy.tx_electrical_idle)
@@ -635,7 +637,9 @@ class DeviceBench:
                     setsig(phy.lfps_reset_detected, 1)
                     st["rst"] = True
                     log({"e": "warm"})
-                    st.update(p_seq=0, exp=0, lfps_sent=0, addr=0)
+                    # (the partner restarts its header numbering when the link has dropped: a device header that completes in
+                    # the very cycle the reset begins still belongs to the old epoch)
+                    st.update(lfps_sent=0, addr=0, reset_nums=True)
                     for _ in range(max(1, op[1])):
                         await cycle()
                     setsig(phy.lfps_reset_detected, 0)
